@@ -465,17 +465,17 @@ def run(ctx):
 
     def vol(q, t):
         return max(1, int(ctx.pick(q, t) * scale))
-    t_cases, npairs = transition_cases(ctx, cat, trans, args, base_items, vol(11000, 250000))
+    t_cases, npairs = transition_cases(ctx, cat, trans, args, base_items, vol(11000, 120000))
     batches.append(('advanced', 'cga', t_cases))
     pj, _ = transition_cases(ctx, cat, trans, args, pcjr_items, 0)
-    batches.append(('pcjr', 'pcjr', pj[:vol(600, 10000)]))
+    batches.append(('pcjr', 'pcjr', pj[:vol(600, 5000)]))
     # other dialects / adapters: a sample of the advanced cases
-    extra = ctx.rng.sample(t_cases, min(len(t_cases), vol(900, 20000)))
+    extra = ctx.rng.sample(t_cases, min(len(t_cases), vol(900, 10000)))
     batches.append(('tandy', 'tandy', [dict(c) for c in extra[:len(extra) // 2]]))
     batches.append(('advanced', 'vga', [dict(c) for c in extra[len(extra) // 2:]]))
     # 2. other arms
-    others = (grammar_cases(ctx, cat, vol(900, 18000), vol(900, 18000)) + corpus_cases(ctx, vol(700, 14000))
-              + soup_cases(ctx, vol(1200, 24000)))
+    others = (grammar_cases(ctx, cat, vol(900, 9000), vol(900, 9000)) + corpus_cases(ctx, vol(700, 7000))
+              + soup_cases(ctx, vol(1200, 12000)))
     seedfiles = []
     for p in corpus_programs():
         with open(p, 'rb') as f:
@@ -486,7 +486,7 @@ def run(ctx):
     rr.restore_mount()
     seedfiles += [rr.progfiles['PROG.BAS'], rr.progfiles['PROT.BAS']]
     rr.close()
-    others += file_cases(ctx, vol(1200, 24000), seedfiles)
+    others += file_cases(ctx, vol(1200, 12000), seedfiles)
     ctx.rng.shuffle(others)
     batches.append(('advanced', 'cga', others))
     only_arms = os.environ.get('VERIF_C01_ARMS')            # development aid (defect hunting): 'T', 'O' (other arms), 'D' or a combination
